@@ -224,7 +224,7 @@ fn sub_areas(w: u32, h: u32, all: bool) -> Vec<(i32, i32, u32, u32)> {
 fn cases(tier: Tier, part: &str) -> Vec<ImgCase> {
     let mut v = vec![];
     let t = tier.is_thorough();
-    let (mw, mh) = tier.pick((5, 4), (10, 7));
+    let (mw, mh) = tier.pick((7, 5), (10, 7));
     let bpps: Vec<u8> = match part {
         "sub-byte" => vec![1, 2, 4],
         _ => vec![8, 16, 24, 32],
